@@ -5,10 +5,10 @@ set -e
 FLAVOR=${1:-asan}
 ROOT=/verif
 REPO=${VERIF_REPO:-/repo}
-B=$ROOT/build/$FLAVOR
+B=$ROOT/build/$FLAVOR${VERIF_BUILD_TAG:-}
 SIM=$ROOT/sim
 mkdir -p $ROOT/build
-exec 9>$ROOT/build/.lock.$FLAVOR
+exec 9>$ROOT/build/.lock.$FLAVOR${VERIF_BUILD_TAG:-}
 flock 9
 
 case $FLAVOR in
